@@ -24,6 +24,7 @@ int gen_dim(rng_t *r, int maxd) {
   return d;
 }
 
+static int g_winprob; /* set by gen_case from its options */
 static void emit_mat(rng_t *r, sbuf_t *o, int reg, int m, int n, const char *force_gen, long force_p) {
   const char *g = force_gen ? force_gen : MATGENS[rng_below(r, sizeof MATGENS / sizeof MATGENS[0])];
   long p = force_p;
@@ -33,7 +34,13 @@ static void emit_mat(rng_t *r, sbuf_t *o, int reg, int m, int n, const char *for
     else if (!strcmp(g, "sparse")) p = 1 + (long)rng_below(r, (uint64_t)(m + n));
     else p = 0;
   }
-  sb_printf(o, "mat %d %d %d %s %ld %llu\n", reg, m, n, g, p, (unsigned long long)(rng_u64(r) >> 1));
+  unsigned long long sd = (unsigned long long)(rng_u64(r) >> 1);
+  if (g_winprob && (int)rng_below(r, 16) < g_winprob) { /* same value, but living in a window: odd word offsets give 8-mod-16 aligned rows */
+    int r0s[] = { 0, 1, 3, 0 }, c0s[] = { 1, 1, 0, 2, 3 }, ers[] = { 0, 2, 0 }, ecs[] = { 0, 5, 64, 70, 0 };
+    sb_printf(o, "wmat %d %d %d %s %ld %llu %d %d %d %d\n", reg, m, n, g, p, sd, r0s[rng_below(r, 4)], c0s[rng_below(r, 5)], ers[rng_below(r, 3)], ecs[rng_below(r, 5)]);
+    return;
+  }
+  sb_printf(o, "mat %d %d %d %s %ld %llu\n", reg, m, n, g, p, sd);
 }
 static void emit_perm(rng_t *r, sbuf_t *o, int reg, int len, const char *g) {
   sb_printf(o, "perm %d %d %s %llu\n", reg, len, g, (unsigned long long)(rng_u64(r) >> 1));
@@ -75,6 +82,7 @@ int gen_nops(void) { int n = 0; while (gen_all_ops[n]) n++; return n; }
  * matrix registers consumed (>=0), or -1 for an unknown op. */
 int gen_case(rng_t *r, const char *op, const genopt_t *g, sbuf_t *o, int rb, int pb) {
   int D = g->maxdim;
+  g_winprob = g->winprob;
   int supplied = rng_chance(r, 1, 2); /* destination supplied (with junk) or allocated by the call */
 #define IS(x) (!strcmp(op, x))
   if (IS("mul_naive") || IS("addmul_naive") || IS("mul_va") || IS("mul_m4rm") || IS("addmul_m4rm") || IS("mul") ||
